@@ -25,57 +25,60 @@ theorem step_pop (F : FloatOps) {s : State} {code : Code} (hc : CodeAt s code) (
   · show (tick s _).ip = _; rw [tick_ip]; exact hip
   · show (tick s _).stack.set! _ _ = _; rw [tick_stack]
 
-theorem compileStmt_expr (pos : Pos) (e : Expr) :
-    compileStmt (.expr pos e) = (do compileExpr e; Compile.emit_ pos Compile.OpPop) := rfl
+/-- DEFINELOCAL: the top of the stack goes to the local slot -/
+theorem step_defineLocal (F : FloatOps) {s : State} {code : Code} (hc : CodeAt s code) (p : Nat) (hip : s.ip + 1 = (p : Int))
+    (b0 b1 : UInt8) (h0 : code.insts[p]? = some b0) (hb0 : b0.toNat = 40) (h1 : code.insts[p + 1]? = some b1)
+    (bp : Nat) (hbp : (s.frames[s.curFrame]!).bp = (bp : Int)) (hi : bp + b1.toNat < 2048) (hsp : 1 ≤ s.sp ∧ s.sp ≤ 2048) :
+    ∃ s', exec (step F) s = (.ok .next, s') ∧ Same s s' ∧ s'.heap = s.heap ∧ s'.ip = (p : Int) + 1 ∧ s'.sp = s.sp - 1 ∧
+      s'.stack = (s.stack.set! (bp + b1.toNat) (s.stack[(s.sp - 1).toNat]!)).set! (s.sp - 1).toNat .nil := by
+  rw [exec_step_fetch' F hc p b0 hip h0, hb0]
+  have hd : dispatch F 40 = execDefineLocal := rfl
+  rw [hd]; unfold execDefineLocal
+  have hipt : (tick s 40).ip = (p : Int) := by rw [tick_ip]; exact hip
+  have hfr : (tick s 40).frames[(tick s 40).curFrame]! = s.frames[s.curFrame]! := by
+    rw [(tick_same s 40).frames, (tick_same s 40).curFrame]
+  simp only [exec_bind, exec_opnd1 (hc.tick 40) p hipt b1 h1, exec_curFrame, hfr, hbp, exec_getSp, tick_sp]
+  rw [exec_stackGet' _ _ (by omega)]
+  simp only
+  rw [exec_stackSet' _ _ _ (by omega)]
+  simp only [exec_setSp]
+  rw [exec_stackSet' _ _ _ (by omega)]
+  simp only [exec_bumpIp, exec_pure]
+  have hidx : ((bp : Int) + (b1.toNat : Int)).toNat = bp + b1.toNat := by omega
+  refine ⟨_, rfl, (tick_same s _).trans ⟨rfl, rfl, rfl, rfl, rfl, rfl, rfl, rfl, rfl, rfl, rfl, rfl, rfl⟩, tick_heap s _, ?_, rfl, ?_⟩
+  · show (tick s _).ip + 1 = _; rw [hipt]
+  · show ((tick s _).stack.set! _ _).set! _ _ = _; rw [tick_stack, hidx]
 
-/-- what the VM does for a statement of the fragment that completes with `c` -/
-def OutcomeS (F : FloatOps) (s : State) (h1 : Array Cell) (q : Nat) : Sem.Comp → Prop
-  | .normal => ∃ s', Reach F s s' ∧ Same s s' ∧ s'.heap = h1 ∧ s'.ip + 1 = (q : Int) ∧ s'.sp = s.sp ∧
-      AgreeBelow s.sp.toNat s.stack s'.stack
-  | .thr a => Outcome F s h1 q (.thr a)
-  | _ => False
-
-/-- the expression statement, over `evalF` -/
-theorem sim_exprStmt (F : FloatOps) (pos : Pos) (e : Expr) (cs cs' : CState)
-    (hc : runCM (compileStmt (.expr pos e)) cs = (.ok (), cs')) (hF : ExprF (localIdx cs) e = true) :
-    Shape cs cs' ∧ ∀ (K : Array Compile.Const) (code : Code) (bp lo : Nat) (env : Sem.Env) (s t : State) (fuel : Nat)
-      (r : Sem.ER) (t1 : State),
-      IsPre cs'.constants K → CodeHas code cs'.insts cs.insts.size → VMOk K code bp lo s →
-      s.ip + 1 = (cs.insts.size : Int) → s.sp + need e ≤ 2048 → t.heap = s.heap →
-      LocalsOK (localIdx cs) env s bp lo → exec (evalF F fuel env e) t = (.ok r, t1) →
-      OutcomeS F s t1.heap cs'.insts.size (match r with | .val _ => .normal | .thr a => .thr a) := by
-  rw [compileStmt_expr] at hc
-  obtain ⟨_, cs1, he, hc⟩ := bind_inv hc
-  obtain ⟨she, sime⟩ := good_all F e cs cs1 he hF
-  have shp := Shape.of_emit_ hc
-  refine ⟨she.trans shp, ?_⟩
-  intro K code bp lo env s t fuel r t1 hK hcode hvm hip hsp hh hloc hsem
-  obtain ⟨bs, hbs, e2⟩ := emit__inv hc
-  have hbs' : bs = [UInt8.ofNat 22] := by
-    have : Compile.makeInstruction Compile.OpPop [] = .ok [UInt8.ofNat 22] := rfl
-    rw [this] at hbs; injection hbs with h; exact h.symm
-  subst hbs'
-  have hsz : cs'.insts.size = cs1.insts.size + 1 := by rw [e2]; simp
-  have hb0 : code.insts[cs1.insts.size]? = some (UInt8.ofNat 22) := by
-    rw [hcode _ she.pre.1 (by omega), e2]
-    exact emit_bytes (cs := cs1) [UInt8.ofNat 22] 0 (by simp)
-  have hge := (grows_evalF F fuel env e).h t
-  rw [hsem] at hge
-  have oe := sime K code bp lo env s t fuel r t1 (Compile.IsPre.trans shp.cpre hK) (hcode.sub shp.pre (Nat.le_refl _))
-    hvm hip hsp hh hloc hsem
-  have hlo := hvm.lo
-  cases r with
-  | thr a => exact oe
-  | val v =>
-    obtain ⟨s1, hr1, hs1, hh1, hip1, hsp1, hag1, hget1⟩ := oe
-    obtain ⟨hvm1, hloc1⟩ := carry hvm hloc hs1 (keep_of hh hge hh1) hag1 (by omega) (by omega)
-    have hne := need_pos e
-    obtain ⟨s2, hrun, hs2, hh2, hip2, hsp2, hst2⟩ := step_pop F hvm1.code cs1.insts.size hip1 _ hb0 rfl (by omega)
-    have hidx : s1.sp - 1 = s.sp := by omega
-    rw [hidx] at hst2
-    exact ⟨s2, hr1.trans (Reach.step hvm1.abort hrun), hs1.trans hs2, by rw [hh2, hh1], by rw [hip2, hsz]; push_cast; rfl,
-      by omega, by rw [hst2]; exact hag1.set _ _ (Nat.le_refl _)⟩
-
+/-- SETLOCAL of a slot that does not hold a box: the top of the stack goes to the slot -/
+theorem step_setLocal (F : FloatOps) {s : State} {code : Code} (hc : CodeAt s code) (p : Nat) (hip : s.ip + 1 = (p : Int))
+    (b0 b1 : UInt8) (h0 : code.insts[p]? = some b0) (hb0 : b0.toNat = 6) (h1 : code.insts[p + 1]? = some b1)
+    (bp : Nat) (hbp : (s.frames[s.curFrame]!).bp = (bp : Int)) (hi : bp + b1.toNat < 2048)
+    (hv : ∀ a, s.stack[bp + b1.toNat]! ≠ .box a) (hsp : 1 ≤ s.sp ∧ s.sp ≤ 2048) :
+    ∃ s', exec (step F) s = (.ok .next, s') ∧ Same s s' ∧ s'.heap = s.heap ∧ s'.ip = (p : Int) + 1 ∧ s'.sp = s.sp - 1 ∧
+      s'.stack = (s.stack.set! (bp + b1.toNat) (s.stack[(s.sp - 1).toNat]!)).set! (s.sp - 1).toNat .nil := by
+  rw [exec_step_fetch' F hc p b0 hip h0, hb0]
+  have hd : dispatch F 6 = execSetLocal := rfl
+  rw [hd]; unfold execSetLocal
+  have hipt : (tick s 6).ip = (p : Int) := by rw [tick_ip]; exact hip
+  have hfr : (tick s 6).frames[(tick s 6).curFrame]! = s.frames[s.curFrame]! := by
+    rw [(tick_same s 6).frames, (tick_same s 6).curFrame]
+  simp only [exec_bind, exec_opnd1 (hc.tick 6) p hipt b1 h1, exec_getSp, tick_sp]
+  rw [exec_stackGet' _ _ (by omega)]
+  simp only [exec_curFrame, hfr, hbp]
+  rw [exec_stackGet' _ _ (by omega)]
+  have hidx : ((bp : Int) + (b1.toNat : Int)).toNat = bp + b1.toNat := by omega
+  simp only [hidx, tick_stack]
+  cases hvv : s.stack[bp + b1.toNat]! with
+  | box a => exact absurd hvv (hv a)
+  | _ =>
+    simp only [exec_bind]
+    rw [exec_stackSet' _ _ _ (by omega)]
+    simp only [exec_setSp]
+    rw [exec_stackSet' _ _ _ (by omega)]
+    simp only [exec_bumpIp, exec_pure]
+    refine ⟨_, rfl, (tick_same s _).trans ⟨rfl, rfl, rfl, rfl, rfl, rfl, rfl, rfl, rfl, rfl, rfl, rfl, rfl⟩, tick_heap s _, ?_, rfl, ?_⟩
+    · show (tick s _).ip + 1 = _; rw [hipt]
+    · show ((tick s _).stack.set! _ _).set! _ _ = _; rw [tick_stack, hidx]
 
 theorem execStmt_zero (F : FloatOps) (env : Sem.Env) (st : Stmt) :
     Sem.execStmt F 0 env st = Sem.liftM (unsupported "sem: fuel") := by
